@@ -65,7 +65,7 @@ def run_check(prop, tier, seed, replay=None):
         if module_failed:
             broken.append((mod.LEAN_MODULE, "does not build: " + _build_excerpt(info.log)))
         else:
-            res, out = common.audit(prop, mod.LEAN_MODULE, theorems)
+            res, out = common.audit(prop, mod.LEAN_MODULE, theorems, deps=getattr(mod, "LEAN_DEPS", []))
             for t in theorems:
                 ax = res.get(t)
                 if ax is None:
